@@ -130,10 +130,16 @@ where
   }
 
   pub fn finalize(&self) {
-    self.unscribers.read().unwrap().iter().for_each(|x| {
-      x.1.call(());
+    // take the registered upstreams out in one step and call them without the
+    // lock: an upstream registered concurrently either is in this batch or
+    // stays in the map for the next finalize - it is never dropped uncalled
+    let upstreams: Vec<FunctionWrapper<'a, (), ()>> = {
+      let mut m = self.unscribers.write().unwrap();
+      m.drain().map(|x| x.1).collect()
+    };
+    upstreams.iter().for_each(|f| {
+      f.call(());
     });
-    self.unscribers.write().unwrap().clear();
     // also after a terminal: this drops the teardown action, which otherwise
     // keeps subscriber -> teardown -> controller -> subscriber alive forever
     self.subscriber.unsubscribe();
